@@ -177,8 +177,11 @@ class Ctx:
             raise Broken("trace module %s judged %d of %d lines" % (module, r.distinct - fanout, n))
         rej = {}
         # TLC pretty-prints long values over several lines
-        for m in re.finditer(r'<<\s*"REJECT",\s*(\d+),\s*\{([^}]*)\}\s*>>', r.out, re.S):
+        self.reject_extra = {}
+        for m in re.finditer(r'<<\s*"REJECT",\s*(\d+),\s*\{([^}]*)\}\s*(?:,\s*(\d+)\s*)?>>', r.out, re.S):
             rej[int(m.group(1))] = sorted(x.strip().strip('"') for x in m.group(2).split(",") if x.strip())
+            if m.group(3) is not None:
+                self.reject_extra[int(m.group(1))] = int(m.group(3))
         if len(re.findall(r'"REJECT"', r.out)) < len(rej) or (('"REJECT"' in r.out) and not rej):
             raise Broken("could not parse the rejects printed by %s" % module)
         nprinted = len(set(re.findall(r'"REJECT",\s*(\d+),', r.out)))
